@@ -33,7 +33,8 @@ func main() {
 	}
 	sp := os.Getenv("VERIF_PLUGIN_SCRIPT")
 	if sp == "" {
-		// default behaviour: a well-behaved plugin that wraps/unwraps nothing
+		// default behaviour: say nothing, close the output at once, then wait for the client to close its side
+		os.Stdout.Close()
 		io.Copy(io.Discard, os.Stdin)
 		return
 	}
